@@ -65,6 +65,12 @@ def compare_pair(rng, res, spec, root, spec2, root2, name_map, descs, applied, s
     ref, ref2 = Ref(spec, root), Ref(spec2, root2)
     steps1 = [{'op': 'build', 'chain': 'c', 'root': root}]
     steps2 = [{'op': 'build', 'chain': 'c', 'root': root2}]
+    warm = rng.random() < 0.5
+    if warm:
+        # what the process did BEFORE building the chain is not part of the computation: representations of parameter objects of related classes
+        # (parent classes first) were already computed by other code of the same interpreter
+        steps2 = [{'op': 'warm_reprs'}] + steps2
+        res.count('pairs_with_earlier_use_of_object_classes')
     hs = hashseeds or (rng.randrange(1, 10 ** 6), rng.randrange(1, 10 ** 6))
     with Lab(spec) as lab1, Lab(spec2) as lab2:
         r1 = lab1.run(steps1, spawn=spawn, hashseed=hs[0] if spawn else None)
@@ -73,7 +79,7 @@ def compare_pair(rng, res, spec, root, spec2, root2, name_map, descs, applied, s
         if session_problem(r):
             res.inconclusive.append(session_problem(r))
             return
-    o1, o2 = r1['steps'][0], r2['steps'][0]
+    o1, o2 = r1['steps'][0], r2['steps'][-1]
     witness = {'spec': spec, 'root': root, 'spec2': spec2, 'root2': root2, 'rewritings': descs, 'spawned': spawn}
     if not o1['ok']:
         res.count('original_failed_to_build_not_judged_here')
